@@ -57,10 +57,11 @@ func configs() []config {
 		{Name: "unsafe-3w-p3-merge", KV: merged(corpus.AggressiveMerge(), corpus.MultiWorkerPersister(), un), Writers: 3, Unsafe: true},
 		{Name: "safe-2w-keep3", KV: merged(corpus.AggressiveMerge(), map[string]any{"numSnapshotsToKeep": 3}), Writers: 2, FMerge: 5},
 		{Name: "safe-1w-default", KV: map[string]any{}, Writers: 1},
+		{Name: "safe-1w-keep3", KV: map[string]any{"numSnapshotsToKeep": 3}, Writers: 1},
 	}
 }
 
-const nIDs = 6
+const nIDs = 6 // documents per writer besides its marker; hot-key cases use 1
 
 type crashCase struct {
 	ID       int    `json:"id"`
@@ -73,6 +74,7 @@ type crashCase struct {
 	RecOcc   int    `json:"recovery_occ,omitempty"`
 	Seed     uint64 `json:"seed"`
 	Batches  int    `json:"batches"`
+	NIDs     int    `json:"ids_per_writer"`
 }
 
 type jinfo struct {
@@ -269,11 +271,11 @@ type expected struct {
 	terms map[string][]string
 }
 
-func expectedFor(seed uint64, K []int) (*expected, error) {
+func expectedFor(seed uint64, K []int, nids int) (*expected, error) {
 	ex := &expected{docs: map[string][]string{}, terms: map[string][]string{}}
 	var live []*corpus.Doc
 	for w, k := range K {
-		m := corpus.WriterModel(seed, w, k, nIDs)
+		m := corpus.WriterModelOpt(seed, w, k, nids, true)
 		for _, d := range m.LiveDocs() {
 			st, err := corpus.ExpectedStored(d)
 			if err != nil {
@@ -320,11 +322,11 @@ func eqStrs(a, b []string) bool {
 }
 
 // checkState compares one dumped state with the model of its own version vector.
-func checkState(seed uint64, st State) (string, string) {
+func checkState(seed uint64, st State, nids int) (string, string) {
 	if st.Err != "" {
 		return "state-error", st.Label + ": " + st.Err
 	}
-	ex, err := expectedFor(seed, st.Seqs)
+	ex, err := expectedFor(seed, st.Seqs, nids)
 	if err != nil {
 		return "harness", err.Error()
 	}
@@ -431,7 +433,7 @@ func runCase(r *ev.Run, dir string, c crashCase) caseResult {
 	idxDir := filepath.Join(base, "idx")
 	jpath := filepath.Join(base, "journal")
 	sp := WriteSpec{Dir: idxDir, Journal: jpath, Create: true, KVConfig: c.Cfg.KV, Seed: c.Seed, Writers: c.Cfg.Writers,
-		NIDs: nIDs, From: make([]int, c.Cfg.Writers), Batches: c.Batches, ForceMerge: c.Cfg.FMerge, PaceMicros: 300}
+		NIDs: c.NIDs, From: make([]int, c.Cfg.Writers), Batches: c.Batches, ForceMerge: c.Cfg.FMerge, PaceMicros: 300}
 	var kill func(*exec.Cmd)
 	switch c.Kind {
 	case "hook":
@@ -495,7 +497,7 @@ func runCase(r *ev.Run, dir string, c crashCase) caseResult {
 			res.Problem, res.Detail = "reopen-failed", fmt.Sprintf("open after crash: %s %v", d0.OpenErr, d0.States)
 			return res
 		}
-		if p, d := checkState(c.Seed, d0.States[0]); p != "" {
+		if p, d := checkState(c.Seed, d0.States[0], c.NIDs); p != "" {
 			res.Dump, res.Problem, res.Detail = d0, p, d
 			return res
 		}
@@ -533,7 +535,7 @@ func runCase(r *ev.Run, dir string, c crashCase) caseResult {
 		return res
 	}
 	res.Recovered = d.States[0].Seqs
-	if p, dd := checkState(c.Seed, d.States[0]); p != "" {
+	if p, dd := checkState(c.Seed, d.States[0], c.NIDs); p != "" {
 		res.Problem, res.Detail = p, dd
 		return res
 	}
@@ -553,7 +555,7 @@ func runCase(r *ev.Run, dir string, c crashCase) caseResult {
 			res.Problem, res.Detail = "write-after-recovery-lost", fmt.Sprintf("%s: seq vector %v want %v", st.Label, st.Seqs, want)
 			return res
 		}
-		if p, dd := checkState(c.Seed, st); p != "" {
+		if p, dd := checkState(c.Seed, st, c.NIDs); p != "" {
 			res.Problem, res.Detail = "after-recovery/"+p, dd
 			return res
 		}
@@ -572,7 +574,7 @@ func tailStr(s string, n int) string {
 }
 
 func runDump(base, idxDir string, c crashCase, more int, name string) *Dump {
-	ds := DumpSpec{Dir: idxDir, Out: filepath.Join(base, name+".json"), Seed: c.Seed, Writers: c.Cfg.Writers, NIDs: nIDs, More: more}
+	ds := DumpSpec{Dir: idxDir, Out: filepath.Join(base, name+".json"), Seed: c.Seed, Writers: c.Cfg.Writers, NIDs: c.NIDs, More: more}
 	writeJSON(filepath.Join(base, name+"-spec.json"), ds)
 	exit, _ := runWorker("c03-dump", filepath.Join(base, name+"-spec.json"), filepath.Join(base, name+".log"), nil)
 	var d Dump
@@ -616,7 +618,11 @@ func run(r *ev.Run) {
 	nRec := r.Scale(14, 240)
 	r.MinDistinct = r.Scale(80, 1500)
 	if !r.Thorough() {
-		cfgs = cfgs[:4]
+		cfgs = append(append([]config{}, cfgs[:3]...), cfgs[4]) // safe-1w, safe-3w-p3, unsafe-1w, safe-2w-keep3
+	}
+	shortCfgs := cfgs
+	if !r.Thorough() {
+		shortCfgs = append(append([]config{}, cfgs...), configs()[6]) // + safe-1w-keep3 for the short histories only
 	}
 
 	g := r.Rng("cases")
@@ -681,8 +687,35 @@ func run(r *ev.Run) {
 	for i, c := range cfgs {
 		cases = append(cases, crashCase{Cfg: c, Kind: "clean", Seed: uint64(r.Seed)*77 + uint64(i), Batches: batches})
 	}
+	// short histories that are closed cleanly (many of them right after a delete-only batch that
+	// empties the newest segments), then reopened and written to again
+	nShort := r.Scale(48, 480)
+	for i := 0; i < nShort; i++ {
+		c := crashCase{Cfg: shortCfgs[i%len(shortCfgs)], Kind: "clean", Seed: g.Uint64(), Batches: 2 + (i/len(shortCfgs))%5}
+		if i%2 == 0 {
+			// aimed: every writer's last batch is delete-only
+			for try := 0; try < 4000; try++ {
+				all := true
+				for w := 0; w < c.Cfg.Writers; w++ {
+					all = all && corpus.IsWipe(c.Seed, w, c.Batches)
+				}
+				if all {
+					break
+				}
+				c.Seed = g.Uint64()
+			}
+		}
+		cases = append(cases, c)
+	}
 	for i := range cases {
 		cases[i].ID = i
+		// every third case is a hot-key workload: one document per writer besides the marker, so that
+		// whole segments are emptied by the next batch (segments dropped from the root while older
+		// snapshots still name their files)
+		cases[i].NIDs = nIDs
+		if i%3 == 2 {
+			cases[i].NIDs = 1
+		}
 	}
 	r.Extra("hook_points_reached_in_profiles", pointsSeen)
 	r.Extra("option_sets", len(cfgs))
